@@ -216,22 +216,29 @@ class Composite(Datum):
         merge_flow = {}
         merge_state = {}
         if composite:
-            merge_processes.update(composite['processes'])
-            merge_topology.update(composite['topology'])
-            merge_steps.update(composite['steps'])
-            merge_flow.update(composite['flow'])
-            merge_state.update(composite.get('state', {}))
+            merge_processes.update(
+                deep_copy_internal(composite['processes']))
+            merge_topology.update(
+                deep_copy_internal(composite['topology']))
+            merge_steps.update(deep_copy_internal(composite['steps']))
+            merge_flow.update(deep_copy_internal(composite['flow']))
+            merge_state.update(
+                deep_copy_internal(composite.get('state', {})))
 
         deep_merge(merge_processes, processes)
         deep_merge(merge_topology, topology)
         deep_merge(merge_steps, steps)
         deep_merge(merge_flow, flow)
         deep_merge(merge_state, state)
-        merge_processes = assoc_in({}, path, merge_processes)
-        merge_topology = assoc_in({}, path, merge_topology)
-        merge_steps = assoc_in({}, path, merge_steps)
-        merge_flow = assoc_in({}, path, merge_flow)
-        merge_state = assoc_in({}, path, merge_state)
+        # copy the nested dictionaries so that the merged-in composite
+        # (or loose dictionaries) and self never share any of them
+        merge_processes = assoc_in(
+            {}, path, deep_copy_internal(merge_processes))
+        merge_topology = assoc_in(
+            {}, path, deep_copy_internal(merge_topology))
+        merge_steps = assoc_in({}, path, deep_copy_internal(merge_steps))
+        merge_flow = assoc_in({}, path, deep_copy_internal(merge_flow))
+        merge_state = assoc_in({}, path, deep_copy_internal(merge_state))
 
         # merge with instance processes and topology
         deep_merge(self.processes, merge_processes)
